@@ -313,6 +313,13 @@ def check(spec, fault, case, do_edits=True):
         if n_.name != "references":
             n_.tail = f" tail{i_} "
             n_.add_extras("xml:lang", f"l{i_}")
+    # a prefix declared deep inside a referenced element (on a grandchild only): the copies carry it at the same depth
+    for n_ in nodes:
+        if "id" in n_.attributes and n_.name != "references":
+            for c_ in n_.children:
+                for gc_ in c_.children[:1]:
+                    gc_.add_namespace("x", "urn:example:x")
+                    gc_.add_extras("x:note", "n")
     by_path = {}
 
     def index_paths(n_, path_):
